@@ -6,6 +6,7 @@ package harness
 // `g.n(k)`, a bounded draw from the run's tape, and 0 is always the simplest choice.
 
 import (
+	"encoding/base64"
 	"fmt"
 	"sort"
 	"strings"
@@ -86,6 +87,7 @@ type Project struct {
 	PkgType   string // root package.json "type"
 	HasRootPJ bool
 	TS        *TSConfig
+	Twin      int               // index of a module that shares its base name with another one (0 = none)
 	Extra     map[string]string // additional raw files (relative path -> content)
 	ExtraDel  map[string]bool
 }
@@ -158,6 +160,15 @@ func GenProject(g G, root string) *Project {
 			}
 		}
 		p.Mods = append(p.Mods, m)
+	}
+	// twins: same base name in another directory (output names collide under "[name]" templates)
+	if g.chance(20) {
+		src := p.Mods[g.n(len(p.Mods))]
+		base := src.Path[strings.LastIndex(src.Path, "/")+1:]
+		id := len(p.Mods)
+		tw := &Module{ID: id, Kind: src.Kind, Version: 1, Path: "src/twin/" + base, Feat: src.Feat &^ (FeatWarn)}
+		p.Mods = append(p.Mods, tw)
+		p.Twin = id
 	}
 	// packages
 	nPk := g.n(4)
@@ -256,6 +267,25 @@ func GenProject(g G, root string) *Project {
 			if ok {
 				p.Entries = append(p.Entries, c)
 			}
+		}
+	}
+	if p.Twin > 0 {
+		tw := p.Mods[p.Twin]
+		if (isJS(tw.Kind) || tw.Kind == "css") && g.chance(60) && !entryOf(p, p.Twin) {
+			p.Entries = append(p.Entries, p.Twin)
+		} else if len(p.Mods) > 1 && !importsTarget(p.Mods[0], p.Twin) {
+			// or import it from module 0
+			st := ImpNamed
+			if !isJS(tw.Kind) {
+				st = ImpDefault
+				if tw.Kind == "css" {
+					st = ImpSideEffect
+				}
+			}
+			if p.Mods[0].Kind == "cjs" {
+				st = ImpRequire
+			}
+			p.Mods[0].Imports = append(p.Mods[0].Imports, Import{Target: p.Twin, Style: st})
 		}
 	}
 	// configs
@@ -503,7 +533,12 @@ func (p *Project) RenderModule(m *Module) string {
 		fmt.Fprintf(&sb, "export const %s%s = [%d, %s];\nexport function %s(o%s) { return o + %d }\nexport default %d;\n", v, typ, m.Salt, sum, f, typ, m.ID, m.ID*10+m.Salt)
 	}
 	if m.Feat&FeatSourceMapComment != 0 {
-		fmt.Fprintf(&sb, "//# sourceMappingURL=data:application/json;base64,eyJ2ZXJzaW9uIjozLCJzb3VyY2VzIjpbIm9yaWcudHMiXSwibmFtZXMiOltdLCJtYXBwaW5ncyI6IkFBQUEifQ==\n")
+		v := smVariants[(m.ID*7+m.Salt)%len(smVariants)]
+		if strings.HasPrefix(v, "RAW:") {
+			fmt.Fprintf(&sb, "//# sourceMappingURL=data:application/json;base64,%s\n", v[4:])
+		} else {
+			fmt.Fprintf(&sb, "//# sourceMappingURL=data:application/json;base64,%s\n", base64.StdEncoding.EncodeToString([]byte(v)))
+		}
 	}
 	if m.Broken {
 		sb.WriteString("export let broken = (1 +\n")
@@ -666,4 +701,34 @@ func (p *Project) EntryPaths() []string {
 		out = append(out, p.Mods[e].Path)
 	}
 	return out
+}
+
+func importsTarget(m *Module, t int) bool {
+	for _, im := range m.Imports {
+		if im.Target == t {
+			return true
+		}
+	}
+	return false
+}
+
+// Input source maps attached to modules through sourceMappingURL data URLs: valid ones
+// and structurally odd or malformed ones (C16 names malformed sourceMappingURL payloads).
+var smVariants = []string{
+	`{"version":3,"sources":["orig.ts"],"names":[],"mappings":"AAAA"}`,
+	`{"version":3,"sources":["orig.ts"],"names":[null,"x",3],"mappings":"AAAAC,CAAAC"}`,
+	`{"version":3,"sources":["orig.ts"],"sourcesContent":["let a = 1"],"names":["a"],"mappings":"AAAAA;AACA"}`,
+	`{"version":3,"sources":[null,1],"names":["a"],"mappings":"AAAAA"}`,
+	`{"version":3,"sources":["orig.ts"],"names":[],"mappings":"ACAA,CAAE"}`,
+	`{"version":3,"sources":["orig.ts"],"names":["a"],"mappings":"AAAAE,DAAA"}`,
+	`{"version":3,"sources":["orig.ts"],"names":[],"mappings":"ggggggggggggggggB"}`,
+	`{"version":2,"sources":["orig.ts"],"names":[],"mappings":"AAAA"}`,
+	`[1,2,3]`,
+	`{"version":3,"sources":["a.ts","b.ts"],"sourcesContent":[null],"names":[],"mappings":"AAAA;;ACAA"}`,
+	`{"version":3,"sections":[{"offset":{"line":0,"column":0},"map":{"version":3,"sources":["s.ts"],"names":[],"mappings":"AAAA"}}]}`,
+	`{"version":3,"sources":["orig.ts"`,
+	`RAW:!!!not-base64@@@`,
+	`{"version":3,"sources":["orig.ts"],"names":[],"mappings":5}`,
+	`{"version":3,"sources":["orig.ts"],"names":{"a":1},"mappings":";;;;;;;;AAAA,,,"}`,
+	`{"version":3,"sourceRoot":"rel/root","sources":["../x/orig.ts"],"names":["n1","n2"],"mappings":"AAAAA,IAAIC;AACA"}`,
 }
